@@ -208,7 +208,7 @@ func (prop) Generate(r *prng.Rand, phase string) any {
 	cfg := mgeom.SwarmCfg(r, []int{1, 2, 3, 4})
 	cfg.FloatMode = []int{0, 0, 2}[r.Intn(3)]
 	cfg.SRIDMode = 0
-	if cfg.MaxCoords > 8 {
+	if cfg.MaxCoords > 8 && cfg.ExactCoords == 0 {
 		cfg.MaxCoords = 8
 	}
 	if r.Chance(0.05) {
@@ -227,6 +227,13 @@ func (prop) Generate(r *prng.Rand, phase string) any {
 			continue
 		}
 		s.Msgs = append(s.Msgs, cfg.Gen(r, t, 1+r.Intn(4), 0))
+	}
+	if r.Chance(0.25) {
+		// spatial reference identifiers on collections and on their members,
+		// equal or not: bounds are about ordinates only
+		for _, m := range s.Msgs {
+			mgeom.DecorateSRIDs(r, m, 0.6)
+		}
 	}
 	if r.Chance(0.0004) {
 		// one very long line (a parallel or chunked fold would engage): the
